@@ -221,7 +221,47 @@ def catalogue_model_runs(d, tier, liveness_for=('diamond_j-1_ok', 'nested_join_i
     return out
 
 
-def run_property(pid, tier, jobs, nontrivial_rule, nontrivial_fn, model_runs=None, extra=None, strict=False, prescribed=False):
+def model_jobs(d, tier, sims=(), probes=()):
+    """Spec -> code: behaviours of MistralEngine.tla to be stepped through the real engine (harness/modelreplay.py).
+    sims:   (shape names | None = all, behaviours per shape, ops, dups, kinds) - TLC simulation
+    probes: (label, shape, TLA+ state formula, ops, dups, kinds) - TLC is asked for a behaviour reaching the formula"""
+    import concurrent.futures as cf
+    from harness import modelreplay as mr
+    shapes = gen.catalogue()
+    byname = dict(shapes)
+    jobs, info = [], {'simulated': 0, 'probes': {}}
+
+    def sim(item):
+        (nm, P), (num, ops, dups, kinds, k) = item
+        sd = common.builddir(os.path.basename(d), 'sim%d' % k)
+        behs, r = mr.simulate(sd, nm, P.abstract(), num, ops=ops, dups=dups, kinds=kinds, seed=common.seed() + 11 * k + 1)
+        return [dict(prog=P, states=b, label='model:%s#%d' % (nm, i), seed=i) for i, b in enumerate(behs)]
+
+    items = []
+    for k, (names, num, ops, dups, kinds) in enumerate(sims):
+        for nm, P in shapes:
+            if names is None or nm in names:
+                items.append(((nm, P), (num, ops, dups, kinds, len(items))))
+    with cf.ThreadPoolExecutor(max_workers=8) as ex:
+        for js in ex.map(sim, items):
+            jobs += js
+            info['simulated'] += len(js)
+
+    def prb(item):
+        k, (label, nm, formula, ops, dups, kinds) = item
+        pd = common.builddir(os.path.basename(d), 'probe%d' % k)
+        beh, r = mr.probe(pd, nm, byname[nm].abstract(), formula, ops=ops, dups=dups, kinds=kinds)
+        return label, nm, beh
+
+    with cf.ThreadPoolExecutor(max_workers=4) as ex:
+        for label, nm, beh in ex.map(prb, list(enumerate(probes))):
+            info['probes'][label] = bool(beh)
+            if beh:
+                jobs.append(dict(prog=byname[nm], states=beh, label='probe:%s:%s' % (label, nm), seed=0))
+    return jobs, info
+
+
+def run_property(pid, tier, jobs, nontrivial_rule, nontrivial_fn, model_runs=None, extra=None, strict=False, prescribed=False, model_behaviours=None):
     t0 = time.time()
     verdict = common.Verdict(pid)
     d = common.builddir(pid.lower(), clean=True)
@@ -244,9 +284,30 @@ def run_property(pid, tier, jobs, nontrivial_rule, nontrivial_fn, model_runs=Non
             verdict.divergence('executor request not a behaviour of Executor.tla: %s' % json.dumps(x))
         extra = dict(extra or {}, executor_requests=er.get('requests', 0), executor_requests_accepted=er.get('accepted', 0))
     traces = engcheck.run_jobs(jobs)
+    mb_info = {}
+    if model_behaviours:
+        from harness import modelreplay as mr
+        mjobs, mb_info = model_behaviours(d)
+        mtraces = mr.run_behaviours(mjobs)
+        traces = traces + mtraces
     errs = [t for t in traces if 'error' in t]
     if errs:
         raise common.MachineryError('%d runs failed inside the harness, first:\n%s' % (len(errs), errs[0]['error']))
+    if model_behaviours:
+        full = order = 0
+        for t in mtraces:
+            m = t['meta']['model']
+            if m['mismatch']:
+                verdict.divergence('model behaviour [%s] could not be followed by the real engine: %s' % (t['meta']['label'], m['mismatch']))
+            elif m['order_choice']:
+                order += 1
+            else:
+                full += 1
+        mb_info.update({'behaviours_replayed_into_real_engine': len(mtraces), 'followed_to_the_end': full,
+                        'not_imposable_order_of_commands_left_open_by_model': order,
+                        'not_followed_divergence': len(mtraces) - full - order})
+        # a behaviour that stopped early is a partial run: its last state is not a state of rest
+        traces = [t for t in traces if t['steps']]
     viols, st, tr = engcheck.judge(d, traces)
     states += st
     trans += tr
@@ -274,7 +335,7 @@ def run_property(pid, tier, jobs, nontrivial_rule, nontrivial_fn, model_runs=Non
         strict_info['outcomes_not_prescribed'] = len(bad)
     if strict:
         from harness import engmodel
-        scope = [t for t in traces if engmodel.in_scope(t)]
+        scope = [t for t in traces if t['meta']['policy'] != 'model' and engmodel.in_scope(t)]
         if scope:
             acc, reached, st2, tr2 = engmodel.strict_validate(d, scope)
             states += st2
@@ -318,6 +379,8 @@ def run_property(pid, tier, jobs, nontrivial_rule, nontrivial_fn, model_runs=Non
         'known_findings_hit': verdict.known_hits,
     }
     cov.update(strict_info)
+    if mb_info:
+        cov['model_behaviours'] = mb_info
     if extra:
         cov.update(extra)
     common.write_evidence(pid, tier, 'model_checking', cov, time.time() - t0, len(verdict.violations), LEVEL_ASSUME)
